@@ -39,6 +39,23 @@ theorem codeVars_cgEls (mod : String) (ρ : String → Option String) (sp : Span
     · obtain ⟨y, hy, h⟩ := ih _ m hm
       exact ⟨y, by simp only [List.flatMap_cons, List.mem_append]; exact Or.inr hy, h⟩
 
+theorem codeVars_cgFields (mod : String) (ρ : String → Option String) (sp : Span) :
+    ∀ (fs : List (String × Expr)) (lm : LM),
+    ∀ m ∈ codeVars (cgFields mod ρ sp fs lm).1, ∃ x ∈ fs.flatMap (fun f => Frag.varsE f.2), ρ x = some m := by
+  intro fs
+  induction fs with
+  | nil => intro lm m hm; simp [cgFields, codeVars] at hm
+  | cons f fs ih =>
+    intro lm m hm
+    simp only [cgFields, codeVars_append, List.mem_append] at hm
+    rcases hm with ((hm | hm) | hm) | hm
+    · simp [codeVars, var?] at hm
+    · obtain ⟨y, hy, h⟩ := (codeVars_cpE mod ρ (Frag.depthE f.2)).1 f.2 lm (Nat.le_refl _) m hm
+      exact ⟨y, by simp [hy], h⟩
+    · simp [codeVars, var?] at hm
+    · obtain ⟨y, hy, h⟩ := ih _ m hm
+      exact ⟨y, by simp only [List.flatMap_cons, List.mem_append]; exact Or.inr hy, h⟩
+
 theorem codeVars_cgE (mod : String) (ρ φ : String → Option String) : ∀ (n : Nat),
     (∀ (e : Expr) (lm : LM), Frag.depthGE e ≤ n →
       ∀ m ∈ codeVars (cgE mod ρ φ e lm).1, ∃ x ∈ Frag.varsGE e, ρ x = some m) ∧
@@ -66,9 +83,23 @@ theorem codeVars_cgE (mod : String) (ρ φ : String → Option String) : ∀ (n 
     refine ⟨?_, ?_, ?_, ?_⟩
     · intro e lm hd m hm
       cases e
-      case int | bool | str | null | none | float | range | anyobj | obj | lambda | assign
-          | member | cast | blockE | tryE =>
+      case int | bool | str | null | none | float | range | anyobj | lambda | assign
+          | cast | blockE | tryE =>
         simp [cgE, codeVars, var?] at hm
+      case obj sp ty fs =>
+        simp only [cgE, codeVars_append, List.mem_append] at hm
+        rcases hm with hm | hm
+        · simp [codeVars, var?] at hm
+        · obtain ⟨y, hy, h⟩ := codeVars_cgFields mod ρ sp fs lm m hm
+          exact ⟨y, by simpa [Frag.varsGE] using hy, h⟩
+      case member sp ty b name mop =>
+        cases mop <;> try (simp [cgE, codeVars, var?] at hm; done)
+        simp only [Frag.depthGE] at hd
+        simp only [cgE, codeVars_append, List.mem_append] at hm
+        rcases hm with hm | hm
+        · obtain ⟨x, hx, h⟩ := ihE b lm (by omega) m hm
+          exact ⟨x, by simp [Frag.varsGE, hx], h⟩
+        · simp [codeVars, var?] at hm
       case list sp ty xs =>
         simp only [cgE, codeVars_append, List.mem_append] at hm
         rcases hm with hm | hm
@@ -446,6 +477,26 @@ theorem genG_stmt (mod fn : String) (φ : String → Option String) (T : List St
               | some o => exact codeVars_arith o asp
             have hasg : codeVars [((Instr.assign : SInstr), asp)] = [] := rfl
             rw [cgS_idxAssign]
+            refine GenG.plain rfl rfl ?_
+            intro m hm
+            simp only [codeVars_append, List.mem_append, hpre, hpost, hasg, List.not_mem_nil, or_false] at hm
+            rcases hm with hm | hm
+            · exact hl m hm
+            · exact hr m hm
+          case member msp mty b name mop =>
+            cases mop <;> try (cases op <;> exact GenG.nil T env)
+            rw [identsGS_memAssign] at hT
+            simp only [List.mem_append] at hT
+            have hl := hEl env (.member msp mty b name .dot) env.lm (fun x hx => hT x (Or.inl hx))
+            have hr := hEl env r (cgE mod (ρS env.scopes) φ (.member msp mty b name .dot) env.lm).2
+              (fun x hx => hT x (Or.inr hx))
+            have hpre : codeVars (opPre op asp) = [] := by cases op <;> rfl
+            have hpost : codeVars (opPost op asp) = [] := by
+              cases op with
+              | none => rfl
+              | some o => exact codeVars_arith o asp
+            have hasg : codeVars [((Instr.assign : SInstr), asp)] = [] := rfl
+            rw [cgS_memAssign]
             refine GenG.plain rfl rfl ?_
             intro m hm
             simp only [codeVars_append, List.mem_append, hpre, hpost, hasg, List.not_mem_nil, or_false] at hm
